@@ -9,15 +9,16 @@ from . import core
 
 N_JOBS = (2, 3)
 BATCH = (1, 2, 3, "auto")
-PRE = (1, 2, 3, "all", "n_jobs", "2*n_jobs", "1.5*n_jobs")
+# 0 and "n_jobs-2" (0 for n_jobs=2): an amount below one batch cannot mean "dispatch nothing, return []"
+PRE = (0, 1, 2, 3, "all", "n_jobs", "2*n_jobs", "1.5*n_jobs", "n_jobs-2")
 
 
 def resolve_pre(pre, n_jobs):
     if pre == "all":
         return None
     if isinstance(pre, str):
-        return int(eval(pre.replace("n_jobs", str(n_jobs))))
-    return int(pre)
+        return max(1, int(eval(pre.replace("n_jobs", str(n_jobs)))))
+    return max(1, int(pre))
 
 
 def cfg_key(cfg):
